@@ -52,6 +52,10 @@ def search_lines(rng, n=None):
         rng.shuffle(w); w = w[:n]
     return [(l, {'kind': 'search'}) for l in w]
 
+def degenerate_lines():
+    """degenerate shapes (empty document / empty list / lone document / scalar) wherever the tables expect clause lists, pipelines or stages"""
+    return [(l, {'kind': 'degenerate'}) for l in gen.degenerate_lines(json.load(open(os.path.join(BUILD, 'dump.json'))))]
+
 def corpus_lines():
     """inputs on which earlier versions of the code (seeded changes, repaired defects) failed a check: they run in every run"""
     p = os.path.join(os.path.dirname(os.path.dirname(os.path.abspath(__file__))), 'corpus', 'lines.txt')
